@@ -184,6 +184,11 @@ def sample(draw):
 def sampler_payload(draw, depth):
     slots = draw(st.lists(st.one_of(st.sampled_from([0, 1, 2, 63, 126, 127]), st.integers(0, 127)), max_size=4, unique=True))
     p = {"samples": [[i, draw(sample())] for i in sorted(slots)]}
+    # the same Sample object put into further slots (a user re-using one recording for several slots)
+    if slots and draw(st.integers(0, 3)) == 0:
+        free = [i for i in (3, 5, 64, 125, 127, 0) if i not in slots]
+        k = draw(st.integers(1, 2))
+        p["sample_aliases"] = [[free[j], draw(st.sampled_from(sorted(slots)))] for j in range(min(k, len(free)))]
     env = {}
     which = draw(st.lists(st.sampled_from(["volume", "panning", "pitch", "fx0", "fx1", "fx2", "fx3"]), max_size=3, unique=True))
     for w in which:
@@ -506,6 +511,8 @@ def apply_payload(mod, tname, p):
     elif tname == "Sampler":
         for i, sd in p.get("samples", []):
             mod.samples[i] = make_sample(cls, sd)
+        for dst, src in p.get("sample_aliases", []):
+            mod.samples[dst] = mod.samples[src]
         envs = p.get("envelopes", {})
         for k, d in envs.items():
             if k == "volume":
@@ -545,15 +552,15 @@ def apply_payload(mod, tname, p):
             mm.message_type, mm.channel, mm.slope, mm.message_parameter = MidiMessageType(mtype), channel, Slope(slope), param
 
 
-def make_module(ms):
-    from rv.cmidmap import MidiMessageType, Slope
-
+def make_module(ms, new_in=None):
+    """Build the module of a recipe.  new_in=project: the module is created with
+    project.new_module(cls, **kw) and everything else is assigned while it is attached."""
     tname = ms["type"]
     cls = cls_of(tname)
     kw = {}
     for name, v in ms.get("ctor", []):
         kw[name] = lib_value(cls, name, v)
-    mod = cls(**kw)
+    mod = cls(**kw) if new_in is None else new_in.new_module(cls, **kw)
     return apply_spec(mod, ms)
 
 
@@ -613,8 +620,11 @@ def fill_project(p, spec, defer_links=False):
             v = tuple(v)
         setattr(p, k, v)
     for i, ms in enumerate(spec.get("modules", [])):
+        how = (i + len(spec.get("modules", []))) % 4
+        if how == 3 and ms is not None:
+            make_module(ms, new_in=p)
+            continue
         mod = make_module(ms)
-        how = i % 3
         if how == 0:
             p.attach_module(mod)
         elif how == 1:
@@ -774,3 +784,20 @@ def scribble_nested(mod, salt=0):
 
     inner(mod)
     return n
+
+
+@st.composite
+def nested_meta(draw, max_levels=4, in_project=True):
+    """Recipe of a MetaModule whose embedded project holds a MetaModule whose embedded project holds ... (2..max_levels levels)."""
+    ms = draw(module_spec(in_project=True, depth=1, tname="MetaModule"))
+    for lvl in range(draw(st.integers(1, max_levels - 1))):
+        outer = draw(module_spec(in_project=in_project if lvl == 0 else True, depth=1, tname="MetaModule"))
+        outer["payload"]["project"]["modules"].append(ms)
+        ms = outer
+    return ms
+
+
+def meta_depth(ms):
+    if not ms or ms.get("type") != "MetaModule":
+        return 0
+    return 1 + max([meta_depth(x) for x in ms["payload"]["project"]["modules"]] + [0])
